@@ -49,7 +49,7 @@ def tape_entries(tape, dest="rec"):
 
 def one_faults(seed, i, tier, res):
     rng = random.Random("%s:C02:%d" % (seed, i))
-    g = gen.ProgGen(rng, max_depth=rng.choice([3, 4, 5]), max_nodes=rng.choice([15, 40]), value_depth=1)
+    g = gen.ProgGen(rng, max_depth=rng.choice([3, 4, 5]), max_nodes=rng.choice([15, 40]), value_depth=1, reseed_p=0.05, reserved_field_p=0.15)
     prog = g.program()
     st = gen.prog_stats(prog)
     tape = Tape()
